@@ -117,6 +117,7 @@ func cmdCheck(args []string) int {
 	eng.contractsDir = filepath.Join(*verifDir, "contracts")
 	eng.keepSMT, eng.debug, eng.oblFilter = *keep, *debug, *oblFilter
 	eng.timeout = 10
+	eng.reachNotes = *verbose || *tier == "thorough"
 	if *tier == "thorough" {
 		eng.timeout = 60
 	}
